@@ -138,7 +138,7 @@ def findings_opt():
     return out
 
 
-def fixed_regressions():
+def fixed_regressions(with_assert=False):
     """Programs that failed before a `fix:` commit: they must pass now (and report a violation if the defect returns)."""
     out = []
     out.append(prog("R1_and_skipped_operand_import", [
@@ -153,6 +153,8 @@ def fixed_regressions():
     # of the enclosing try expressions run before the report is printed
     for tag, stop in (("R4_error_unwinds_through_finally", {"e": "error", "msg": "boom"}),
                       ("R5_assertion_unwinds_through_finally", {"e": "assert", "c": prim("si.lt", var("x"), lit(SI, 0))})):
+        if tag.startswith("R5") and not with_assert:
+            continue        # -Qdel-assert (on from -Q2) deletes assertions: R5 is only for checks that know the level
         boom = {"name": "boom", "oname": "boom", "ps": ["x"], "pts": [SI], "rt": SI, "pure": False,
                 "body": {"e": "seq", "t": SI, "es": [iff(prim("si.gt", var("x"), lit(SI, 3)), stop, {"e": "unit"}, UNIT), var("x")]}}
         guard = {"name": "guard", "oname": "guard", "ps": ["y"], "pts": [SI], "rt": SI, "pure": False,
